@@ -1,3 +1,4 @@
+import PytezosModel.Proofs.InterpTables
 import PytezosModel.Proofs.InterpRefine
 import PytezosModel.Proofs.InterpGuard
 import PytezosModel.Proofs.InterpProgress
@@ -24,9 +25,67 @@ or FAILWITH value, of the reference semantics.
   assertion: a recorded open finding, exhibited on the mirror by `map_empty_counterexample`.
 * It rests on `progress` (a well-typed program on well-typed values is never stuck: the progress half of type
   soundness; the preservation half is C02) and on `exec_refines_spec` (refinement for every execution that is not stuck
-  and inside the guard, any protected prefix). -/
+  and inside the guard, any protected prefix).
+* **Tie to the source.**  `Impl` does not contain the `dispatch_types` tables, the shift / mutez / `count` bounds or the
+  stack indices: it reads them from `Generated.C01`, which translator/c01.py regenerates from
+  src/pytezos/michelson/instructions/*.py and stack.py on every run.  The theorems `*_tables_eq_reference`,
+  `numeric_guards_eq_reference` and `stack_indices` below are the obligations that what was read agrees with the
+  reference; `exec_refines_spec` is proved from them (Proofs/InterpTables.lean → InterpStack / InterpArith / InterpStep).
+  `source_bodies_recognised` is the obligation that the body of every modelled `execute` (and of the helpers / stack /
+  comb methods they call) is still the text the mirror was transcribed from. -/
 namespace C01
 open Interp
+
+/-- **shape digests**: for each of the 86 instruction forms, the helpers (`execute_dip`, `execute_shift`, `dispatch_types`
+…) and the `MichelsonStack` / `PairType` / `from_value` methods they call, the normalised statement list in the source
+is the one the mirror `Impl` was written from (translator/c01.py, `SHAPES`) -/
+theorem source_bodies_recognised : Generated.C01.bodyRecognised.all (·.2) = true := by decide
+
+/-- the digest list covers all 86 instruction forms -/
+theorem source_bodies_cover_all_forms : Generated.C01.modelledForms = 86 ∧ 86 ≤ Generated.C01.bodyRecognised.length :=
+  Interp.bodyRecognised_covers
+
+/-- the `dispatch_types` tables read from arithmetic.py are the reference tables -/
+theorem arithmetic_tables_eq_reference :
+    Impl.addTy = Spec.addTy ∧ Impl.subTy = Spec.subTy ∧ Impl.mulTy = Spec.mulTy ∧ Impl.edivTy = Spec.edivTy ∧
+    (∀ a, Impl.negTy a = ruleTy1 .NEG [a]) :=
+  ⟨addTy_eq, subTy_eq, mulTy_eq, edivTy_eq, negTy_eq⟩
+
+/-- the tables of boolean.py: result classes of the typing rules, `bool` / `int` / `~int(x)` / `not bool(x)` converters -/
+theorem boolean_tables_eq_reference :
+    (∀ a b, Impl.convRow Generated.C01.andTable [a, b]
+        = (Typing.andTy a b).map fun t => (t, if t = Ty.bool then Generated.C01.Conv.bool else .int)) ∧
+    (∀ a b, Impl.convRow Generated.C01.boolAddTable [a, b]
+        = (Typing.orTy a b).map fun t => (t, if t = Ty.bool then Generated.C01.Conv.bool else .int)) ∧
+    (∀ a, Impl.convRow Generated.C01.notTable [a]
+        = (ruleTy1 .NOT [a]).map fun t => (t, if t = Ty.bool then Generated.C01.Conv.not else .invert)) :=
+  ⟨andRow_eq, orRow_eq, notRow_eq⟩
+
+/-- the tables / operand classes of generic.py (CONCAT, SIZE, SLICE) -/
+theorem generic_tables_eq_reference :
+    (∀ t, Impl.convRow Generated.C01.concatListTable [t]
+        = (ruleTy1 .CONCAT [.list t]).map fun r => (r, if r = Ty.string then Generated.C01.Conv.str else .bytes)) ∧
+    (∀ a b, Impl.convRow Generated.C01.concatPairTable [a, b]
+        = (match a with | .list _ => none | _ => ruleTy1 .CONCAT [a, b]).map
+            fun r => (r, if r = Ty.string then Generated.C01.Conv.str else .bytes)) ∧
+    (∀ t, Impl.classIn Generated.C01.sizeClasses t = (Typing.step .SIZE [t]).isSome) ∧
+    (∀ t, Impl.classIn Generated.C01.sliceOffsetClass t = decide (t = .nat)) ∧
+    (∀ t, Impl.classIn Generated.C01.sliceLengthClass t = decide (t = .nat)) ∧
+    (∀ t, Impl.classIn Generated.C01.sliceClasses t = (Typing.step .SLICE [.nat, .nat, t]).isSome) :=
+  ⟨concatListRow_eq, concatPairRow_eq, sizeClasses_eq, sliceOffsetClass_eq, sliceLengthClass_eq, sliceClasses_eq⟩
+
+/-- the numbers read from the source: shifts by at most 256 bits, `nat` / `mutez` ranges (`value >= 0`, at most 63 bits),
+`PAIR n` / `UNPAIR n` need `n ≥ 2`, `unpairn_comb(count - 2)` -/
+theorem numeric_guards_eq_reference :
+    Generated.C01.shiftLimit = some 257 ∧ Impl.numFromValue = Spec.numOk ∧ Generated.C01.pairnMin = some 2 ∧
+    Generated.C01.unpairnMin = some 2 ∧ Generated.C01.unpairnCombOffset = some 2 :=
+  ⟨shiftLimit_eq, numFromValue_eq, pairnMin_eq, unpairnMin_eq, unpairnCombOffset_eq⟩
+
+/-- `MichelsonStack.push / pop / peek` work at index `self.protected` -/
+theorem stack_indices :
+    Generated.C01.pushIndex = some .atProtected ∧ Generated.C01.popIndex = some .atProtected ∧
+    Generated.C01.peekIndex = some .atProtected :=
+  ⟨pushIndex_eq, popIndex_eq, peekIndex_eq⟩
 
 /-- **refinement, any protected prefix** (the form used inside DIP / DIG / DUG / DUP n):
 for every program, fuel bound, environment, visible stack `st` and protected prefix `pre`, if the reference
